@@ -339,7 +339,7 @@ func judge(l *Log, nrecs, minP int, out *Outcome, meta []byte, present func(int)
 	}
 	if !anyPrefix && minP > 0 {
 		if p := match(0, minP-1); p >= 0 {
-			kind := map[int]string{recEntry: "entry", recState: "state", recSnap: "snapshot"}[recs[p].Kind]
+			kind := map[int]string{recEntry: "entry", recState: "state", recSnap: "snapshot", recMeta: "metadata"}[recs[p].Kind]
 			return verdict{Sig: "synced-" + kind + "-lost", Msg: what + fmt.Sprintf(" = effect of the first %d records, but %d records were saved before the last completed sync (first missing: %s of call %d)", p, minP, kind, recs[p].Call), P: -1}
 		}
 	}
